@@ -11,3 +11,12 @@ func verifPoint(name string) {
 		h(name)
 	}
 }
+
+// VerifRolesHook, when set, receives the role objects stateLoop has just built.
+var VerifRolesHook func(f *follower, c *candidate, l *leader)
+
+func verifRoles(f *follower, c *candidate, l *leader) {
+	if h := VerifRolesHook; h != nil {
+		h(f, c, l)
+	}
+}
